@@ -19,7 +19,7 @@ def run(chk, facts, tier):
     spec = json.load(open(os.path.join(VERIF, 'spec', 'smp.json')))
     chk.rule('dispatch-table', 'l2cap_input of each security manager dispatches exactly the specified opcodes to the specified handlers; empty PDU and unknown opcodes answer Pairing Failed', floor=12)
     chk.rule('handler-preconditions', 'every protocol effect (state mutation, output write) of a pairing handler is control dependent on in_size == specified length and state() == specified state', floor=8)
-    chk.rule('errors-reset', 'every value return of a handler is error_response(code, output, out_size, state), and error_response resets the pairing state to idle', floor=9)
+    chk.rule('errors-reset', 'every value return of a handler, and every error_response call in any security manager function that holds the connection state, is the member error_response(code, output, out_size, state); that member resets the pairing state to idle', floor=9)
     chk.rule('srand-after-confirm', 'legacy_handle_pairing_random copies srand to the output and completes pairing only if c1(tk, mrand, p1, p2) == stored mconfirm', floor=1)
     chk.rule('dhkey-after-ea', 'the DHKey check Eb is written and lesc_pairing_completed() is called only behind the comparison of the computed Ea with the received one', floor=2)
     smo = facts.enum('bluetoe::details::sm_opcodes')
@@ -112,6 +112,21 @@ def run(chk, facts, tier):
                     continue
                 okr = v.is_call('error_response') and len(v.args()) == 4 and is_name(v.args()[3], fn.params[-1]['n'])
                 chk.instance('errors-reset', fn, '%s: return %s' % (h, v.text()[:60]), okr, '' if okr else 'early exit does not reset the pairing state', node=r, key='%s/ret%d' % (h, i))
+    # every Pairing Failed produced anywhere in the security managers (helpers, output polling, dispatch) goes through the resetting member
+    seen = set()
+    for fn in facts.functions:
+        if fn.kind not in ('pattern', 'plain') or not fn.q.startswith('bluetoe::details::') or 'security_manager' not in fn.q or not fn.params or not fn.params[-1]['t'].rstrip().endswith('&'):
+            continue
+        for c in fn.body.calls('error_response'):
+            if fn.q == SB + 'error_response':
+                continue   # the resetting member itself forwards to the free function
+            okc = len(c.args()) == 4 and is_name(c.args()[3], fn.params[-1]['n']) and not c.cq
+            k = (fn.q, c.l)
+            if k in seen:
+                continue
+            seen.add(k)
+            chk.instance('errors-reset', fn, '%s: %s' % (fn.name, c.text()[:70]), okc, '' if okc else 'Pairing Failed is sent with the non-resetting %s: the pairing state stays where it was, a second attempt of the same step is accepted (e.g. a second DHKey check after a wrong one)' % (c.cq or 'error_response'), node=c,
+                         key='%s/call %s' % (fn.name, c.args()[0].text()[:40] if c.args() else ''))
     for fn in variants(facts, SB + 'error_response', chk):
         c = member_calls(fn.body, fn.params[-1]['n'], 'error_reset')
         ok = len(c) == 1 and not fn.guards(c[0])
